@@ -54,7 +54,7 @@ class Coordinate:
         )
 
     def __hash__(self):
-        return hash((self.longitude, self.latitude, self.z, self.m))
+        return hash((self.longitude, self.latitude, self.z))
 
     def __repr__(self):
         parts = filter(lambda x: x is not None, (self.longitude, self.latitude, self.z, self.m))
